@@ -19,7 +19,8 @@ structure Inv2 (l : Link Env) : Prop where
   inv : Link.Inv l
   dir : AllDir l
 
-theorem inv2_init (a b : Nat) (now : Nat) (h : a < b) : Inv2 ({ a := a, b := b, now := now } : Link Env) := by
+theorem inv2_init (a b : Nat) (now : Nat) (h : a < b) (fm : Bool := false) :
+    Inv2 ({ a := a, b := b, now := now, fixMatured := fm } : Link Env) := by
   refine ⟨⟨⟨h, ?_⟩, ?_, ?_, ?_, ?_, ?_⟩, ?_⟩ <;> simp [AllDir]
 
 /-- operations of the C03 alphabet, as the World performs them on a link with end points `a`, `b`:
@@ -140,24 +141,28 @@ theorem inv2_gstep {l : Link Env} (h : Inv2 l) (o : GOp) (ho : C03Ok l.a l.b o) 
     cases c with
     | partition =>
       refine ⟨⟨inv_explicitPartition h.inv, ?_⟩, fun _ hx => by cases hx⟩
-      refine allDir_of_sub h.dir (by rfl) (by rfl) ?_
+      obtain ⟨ea, eb, es, _, _, _, _, sA, sB, _⟩ := Link.explicitPartition_fields l
+      refine allDir_of_sub h.dir ea eb ?_
       intro s hs
+      have hs : s ∈ l.explicitPartition.1.sent ∨ s ∈ l.explicitPartition.1.toA ∨ s ∈ l.explicitPartition.1.toB := hs
+      rw [es] at hs
       rcases hs with hs | hs | hs
       · cases hs
-      · exact Or.inr (Or.inl hs)
-      · exact Or.inr (Or.inr hs)
+      · exact Or.inr (Or.inl (sA.subset hs))
+      · exact Or.inr (Or.inr (sB.subset hs))
     | repair =>
       exact ⟨⟨inv_explicitRepair h.inv, allDir_of_sub h.dir rfl rfl (fun s hs => hs)⟩, fun _ hx => by cases hx⟩
     | partitionOneway s d =>
       have hab := C03Sets.ab_partitionOneway l s d
       have hdir : AllDir (l.partitionOneway s d).1 := by
+        obtain ⟨_, _, es, _, _, _, _, sA, sB, _⟩ := Link.partitionOneway_fields l s d
         refine allDir_of_sub h.dir hab.1 hab.2 ?_
         intro x hx
-        unfold Link.partitionOneway at hx
+        rw [es] at hx
         rcases hx with hx | hx | hx
         · exact Or.inl (List.mem_filter.mp hx).1
-        · exact Or.inr (Or.inl (by split at hx <;> exact hx))
-        · exact Or.inr (Or.inr (by split at hx <;> exact hx))
+        · exact Or.inr (Or.inl (sA.subset hx))
+        · exact Or.inr (Or.inr (sB.subset hx))
       refine ⟨⟨?_, hdir⟩, fun _ hx => by cases hx⟩
       rcases ho with ⟨rfl, rfl⟩ | ⟨rfl, rfl⟩
       · exact inv_partitionDir h.inv true
